@@ -87,7 +87,8 @@ class Run:
         d, objs, cc, opt = self.objs(variant)
         exe = os.path.join(d, os.path.splitext(src)[0] + "_" + "_".join(wraps)[:40])
         ld = ["-Wl,--wrap=" + w for w in wraps]
-        cbuild.build_harness(d, os.path.join(ROOT, "harness", src), objs, exe, cc=cc, opt=opt, ldextra=ld)
+        extra = ["-DXC_HEAP"] if "malloc" in wraps else []
+        cbuild.build_harness(d, os.path.join(ROOT, "harness", src), objs, exe, cc=cc, opt=opt, extra=extra, ldextra=ld)
         self._harness[key] = exe
         return exe
 
